@@ -249,3 +249,40 @@ def run(ctx):  # noqa: F811
         if r.startswith("C07-") and r not in keep_rules and r not in rules_before:
             ctx.rules.pop(r)
     ctx.ob(R10, "urllib3.connection._ssl_wrap_socket_and_match_hostname", f"{len(ctx.obs) - before} shared obligations (C07-R3, C07-R8)", True)
+
+
+# ---------------------------------------------------------------------------- R13 a failed CONNECT exchange is a proxy failure (F26)
+_run_base09b = run
+
+
+def run(ctx):  # noqa: F811
+    _run_base09b(ctx)
+    from ..rows import GenRule, effect_rows, helper_closure
+    m = ctx.model
+    R13 = ctx.rule("C09-R13", "a CONNECT exchange that fails - whatever the proxy answered: a refusal status, garbage, nothing - is reported as a proxy failure: urlopen files an error under ProxyError by "
+                   "`not conn.has_connected_to_proxy`, so that flag must not be set while _tunnel() can still raise", "E10 effect rows of HTTPConnection.connect / HTTPSConnection.connect with the CONNECT exchange raising")
+    n = 0
+    CN = "urllib3.connection"
+    for cls in (f"{CN}.HTTPConnection", f"{CN}.HTTPSConnection"):
+        fi = m.method(cls, "connect")
+        if fi is None or fi.clsq != cls:
+            continue
+        inl = set(helper_closure(m, [fi], stop=("_tunnel", "_new_conn", "_connect_tls_proxy", "_ssl_wrap_socket_and_match_hostname"))) - {fi.qual}
+        rows = effect_rows(ctx, fi, GenRule(ctx, fi.module, inline=inl, raising={"_tunnel": "http.client.HTTPException"}), cls, budget=3000000)
+        seen = set()
+        for r in rows:
+            fault = r.st.ts.get("fault")
+            if not fault or not str(fault[0]).endswith("_tunnel"):
+                continue
+            flags = [e[3] for e in r.events("store") if e[1] == "self" and e[2] == "_has_connected_to_proxy"]
+            last = flags[-1] if flags else None
+            if (cls, last) in seen:
+                continue
+            seen.add((cls, last))
+            n += 1
+            ok = last != "True"
+            ctx.ob(R13, fi.qual, "when the CONNECT exchange raises, the connection does not yet count as connected to the proxy", ok,
+                   "" if ok else "`_has_connected_to_proxy = True` is stored before `_tunnel()`: a garbage or empty reply to CONNECT (BadStatusLine / RemoteDisconnected - http.client closes nothing there) reaches "
+                   "urlopen with the flag set and is raised as ProtocolError instead of ProxyError; only replies that make http.client call close() (a refusal status) are classified as proxy failures, by the reset of the flag in close()",
+                   witness=r.witness(), node=fi.node)
+    ctx.sites(R13, n, 1, "rows of connect() on which the CONNECT exchange raises")
